@@ -13,7 +13,10 @@ def run(ctx):
     for i in range(n):
         jobs.append(dict(cmd=[exe, "--mode", "table", "--ops", str(per_t), "--seed", str(ctx.seed * 1000 + i)], variant="asan", tag="table seed%d" % i, san_ctx="hashtable"))
         jobs.append(dict(cmd=[exe, "--mode", "list", "--ops", str(per_l), "--seed", str(ctx.seed * 1000 + i)], variant="asan", tag="list seed%d" % i, san_ctx="list"))
-    res = core.run_jobs(ctx, jobs, timeout=600 if q else 3000)
+    for j in jobs:      # single-threaded deterministic drivers: not finishing is a call that never returns (e.g. a cycle in a bucket chain)
+        j.setdefault("hang_is_violation", True)
+        j.setdefault("hang_key", "symptom=hang (a container call never returned)")
+    res = core.run_jobs(ctx, jobs, timeout=240 if q else 3000)
     tot = {}
     lst = {}
     classes = [0] * 8
